@@ -23,3 +23,8 @@ SLEEP_STATE = {
 
 # fields of PERSISTENT that must have no kernel writer anywhere in the package (checked)
 CONSTANT_AFTER_MAKE_DATA = ("Data.cdof_tri_row", "Data.cdof_tri_col", "Data.ctol", "Data.cls_tol")
+
+# R-LIVE.6: fields that may be read without a live definition under a flag, with the argument why it is harmless
+FLAG_STALE_OK = {
+  "Data.ncollision": "with CONTACT/CONSTRAINT disabled collision() returns before zeroing the broadphase counter; its only reader on that path is the overflow detector of _next_time (ncollision > naconmax), which can only re-raise a sticky bit that the overflowing step already raised (inside C12's no-overflow proviso)",
+}
